@@ -280,6 +280,21 @@ def rescaleBox (k : α) (anchor sides : V3 α) : Rescaled α :=
     mn := mn
     ext := ext }
 
+/-- `NewVoronoiBox::get_wall_copy`: mirror image of a generator with respect to one of the six
+walls of the box (`wall` = 0..5 for LEFT, RIGHT, FRONT, BACK, BOTTOM, TOP), lines 46-90 -/
+def wallCopy (wall : Nat) (anchor sides p : V3 α) : V3 α :=
+  match wall with
+  | 0 => ⟨2.0 * anchor.x - p.x, p.y, p.z⟩
+  | 1 => ⟨2.0 * (anchor.x + sides.x) - p.x, p.y, p.z⟩
+  | 2 => ⟨p.x, 2.0 * anchor.y - p.y, p.z⟩
+  | 3 => ⟨p.x, 2.0 * (anchor.y + sides.y) - p.y, p.z⟩
+  | 4 => ⟨p.x, p.y, 2.0 * anchor.z - p.z⟩
+  | _ => ⟨p.x, p.y, 2.0 * (anchor.z + sides.z) - p.z⟩
+
+/-- the box the rescaled `NewVoronoiBox` is constructed with: anchor `bottom`, sides `top - bottom` -/
+def rescaledSides (r : Rescaled α) : V3 α :=
+  ⟨r.top.x - r.bottom.x, r.top.y - r.bottom.y, r.top.z - r.bottom.z⟩
+
 end Rescale
 
 end CMacVerif.Predicates
